@@ -9,14 +9,14 @@
    What is PROVED here, about the executable model Model/Cdx.v (the same definitions the correspondence shards run
    against CDXMLFile on every bundled fragment and on generated variants):
      T  the decision tables of the RUNNING parser (regenerated into Gen/CdxTables.v on every run) equal the model on
-        the whole probe product, and the probe product is complete                      (C13_*_table_*);
-     1  per-node / per-bond decisions for ALL attribute values                          (C13_node_decisions, ...);
+        the whole probe product, and the probe product is complete                      (the C13_..._table_... theorems);
+     1  per-node / per-bond decisions for ALL attribute values                          (C13_node_decisions and following);
      2  fragment assembly for ALL node / bond lists: one atom per node, one bond per bond (hapto bonds: one Ligand
-        bond per attached atom), charge = sum, multiplicity = sum + 1, nested joins     (C13_one_atom_per_node, ...);
+        bond per attached atom), charge = sum, multiplicity = sum + 1, nested joins     (C13_one_atom_per_node and following);
      3  wedge <-> hash: the constitution is unchanged (also through nested fragments), the sign of every stereo
         action is negated and nothing else; on a planar drawing whose stereo bonds take the out-of-plane ROTATION
         branch (plane normal +ez) or the Bold/Hash translation branch, the 3-D model of the mirrored drawing is the
-        mirror image, so every signed volume changes sign                               (C13_mirror_*);
+        mirror image, so every signed volume changes sign                               (the C13_mirror_... theorems);
      4  __getitem__ is a function of (file, key): the cache only memoises              (C13_label_deterministic).
    What is NOT proved (covered by the differential run / the oracle only):
      - XML text -> element tree; the KD-tree query (modelled as "5 nearest in L1", compared differentially);
@@ -58,33 +58,10 @@ Print Assumptions C13_display_table_agrees.
 
 (* mirror antisymmetry ON THE OBSERVED TABLE: swapping wedge <-> hash negates every sign of the observed pattern and
    keeps which atoms move / which end is lifted more *)
-Definition row_of (d : display) : option display_row := find (fun r => display_eqb (fst (fst r)) d) display_table.
-Definition neg_row (r : display_row) : (Z * Z * comparison) * (bool * bool * bool * Z) :=
-  let '(_, (zb, ze, c), (mb, me, mc, s)) := r in ((- zb, - ze, c), (mb, me, mc, - s))%Z.
-Theorem C13_mirror_table : forall d, In d all_displays ->
-  exists r r', row_of d = Some r /\ row_of (mirror_display d) = Some r' /\ (snd (fst r'), snd r') = neg_row r.
-Proof.
-  assert (H : forallb (fun d => match row_of d, row_of (mirror_display d) with
-                                | Some r, Some r' =>
-                                    let '(_, (zb', ze', c'), (mb', me', mc', s')) := r' in
-                                    let '((zb, ze, c), (mb, me, mc, s)) := neg_row r in
-                                    Z.eqb zb zb' && Z.eqb ze ze' && cmp_eqb c c' && Bool.eqb mb mb' && Bool.eqb me me'
-                                    && Bool.eqb mc mc' && Z.eqb s s'
-                                | _, _ => false
-                                end) all_displays = true) by (vm_compute; reflexivity).
-  intros d Hd. rewrite forallb_forall in H. specialize (H d Hd).
-  destruct (row_of d) as [r|]; [|discriminate]. destruct (row_of (mirror_display d)) as [r'|]; [|discriminate].
-  exists r, r'. repeat split.
-  destruct r' as [[d' [[zb' ze'] c']] [[[mb' me'] mc'] s']]. simpl.
-  destruct (neg_row r) as [[[zb ze] c] [[[mb me] mc] s]].
-  repeat (apply andb_true_iff in H; destruct H as [H ?]).
-  repeat match goal with
-         | E : Z.eqb _ _ = true |- _ => apply Z.eqb_eq in E
-         | E : Bool.eqb _ _ = true |- _ => apply Bool.eqb_prop in E
-         end.
-  apply Z.eqb_eq in H. subst.
-  assert (c = c') by (destruct c, c'; try reflexivity; discriminate). subst. reflexivity.
-Qed.
+Theorem C13_mirror_table : forall d,
+  exists r r', row_of display_table d = Some r /\ row_of display_table (mirror_display d) = Some r' /\
+               (snd (fst r'), snd r') = neg_row r.
+Proof. intros d. apply mirror_table_sound; [vm_compute; reflexivity | apply all_displays_complete]. Qed.
 Print Assumptions C13_mirror_table.
 
 (* ====================================================================== 1: decisions, for all attribute values *)
